@@ -23,9 +23,26 @@ UNITS = {
     'encode': {'rlimit': 100, 'timeout': 240},
     'getkey': {'rlimit': 50, 'timeout': 120},
     'stream': {'rlimit': 50, 'timeout': 240},
+    'reader': {'rlimit': 50, 'timeout': 120},
+    'registry': {'rlimit': 50, 'timeout': 120},
 }
 
 PROPS = {
+    'C12': {
+        'units': ['registry', 'builder'],
+        'kani': [],
+        'own': {'builder': r'Builder::compile$|BuilderNode|RegistryCell'},
+        'level_text': 'Proof of the sharing mechanism: RegistryCache::{entry, promote}, Registry::{entry, hash}, RegistryCell::* and '
+                      'BuilderNode::clone_from are verified on their real bodies for every cache geometry: a node that is resident in its row '
+                      'is always found and the address recorded for that very node is returned; a hit moves exactly that cell to the front; a '
+                      'miss evicts exactly the last cell of the row; other rows are untouched. Builder::compile never writes a resident node '
+                      'twice and records a node only with the address it was emitted at.',
+        'level_note': 'The global clauses of the property - minimal acyclic DFA, trie bound, sharing ratio on corpora - have no function '
+                      'contract behind them and are not decided. The builder unit assumes Registry::entry in a set-of-residents phrasing '
+                      'that the registry unit proves in its table phrasing (correspondence argued). Derived PartialEq of BuilderNode restated.',
+        'explanation': '',
+        'assumptions': ['minimality / trie bound / corpus sharing ratio: not expressible as function contracts (DESIGN.md section 10)'],
+    },
     'C03': {
         'units': ['stream'],
         'kani': [],
@@ -44,10 +61,12 @@ PROPS = {
     'C04': {
         'units': ['stream', 'automaton'],
         'kani': [],
-        'own': {'stream': r'StreamWithState::(new|seek_min|next_with)|Stream::|impl&%\\d+::(next|into_stream)', 'automaton': r'^$'},
+        'own': {'stream': r'StreamWithState::(new|seek_min|next_with)|Stream::|impl&%\\d+::(next|into_stream)', 'automaton': r'.'},
         'level_text': 'Proof: the stream contracts of C03 are stated for an arbitrary A: Automaton of which only the trait contract of C18 '
                       'is known (inv/denot/lang; can_match only has to be sound), so the result - the in-range keys k with lang(k), in '
-                      'listing order with their values - does not depend on how precise the pruning hints are.',
+                      'listing order with their values - does not depend on how precise the pruning hints are. The shipped automata and '
+                      'their compositions are verified to satisfy that contract (unit automaton), so a shipped automaton that stops '
+                      'obeying it is reported here as well.',
         'level_note': 'accept_eof is required to return None (the property excludes the end-of-key hook). The state reported by '
                       'search_with_state (third tuple component) is not yet part of the verified contract.',
         'explanation': '',
